@@ -1,11 +1,14 @@
 #!/bin/sh
-# usage: tools/try_mutant.sh <patch file | -R patch file> <property id> [tier]   -- applies the patch to /repo, runs the check, restores /repo
+# usage: tools/try_mutant.sh <patch file> <property id> [tier] [timeout_s]
+# Applies the patch to a SCRATCH COPY of /repo (never to /repo itself), runs the check against the copy with its own build/out/evidence
+# directories, prints the verdict, removes the scratch.  Safe to run while other work builds from /repo.
 set -u
-REV=""; if [ "$1" = "-R" ]; then REV="-R"; shift; fi
-P="$1"; ID="$2"; TIER="${3:-quick}"
-git -C /repo apply $REV "$P" || { echo "patch does not apply"; exit 3; }
-/verif/tools/check "$ID" "$TIER" > /verif/build/mutant.out 2>&1; rc=$?
-git -C /repo checkout -- . 
-grep -c "^VIOLATION" /verif/build/mutant.out | sed "s/^/violation lines: /"
-grep -m3 "^VIOLATION\|^ERROR\|^DRIFT\|^KNOWN" /verif/build/mutant.out | cut -c1-400
+P="$1"; ID="$2"; TIER="${3:-quick}"; TO="${4:-900}"
+S=/tmp/mut.$$; mkdir -p $S
+rsync -a --exclude _build --exclude .git /repo/ $S/repo/
+( cd $S/repo && patch -p1 -s < "$P" ) || { echo "patch does not apply"; rm -rf $S; exit 3; }
+VERIF_REPO=$S/repo VERIF_BUILD=$S/build VERIF_OUT=$S/out VERIF_EVIDENCE=$S/ev timeout $TO /verif/tools/check "$ID" "$TIER" > $S/out.txt 2>&1; rc=$?
+grep -c "^VIOLATION" $S/out.txt | sed "s/^/violation lines: /"
+grep -m3 "^VIOLATION\|^ERROR\|^DRIFT\|^KNOWN" $S/out.txt | cut -c1-300
 echo "exit=$rc"
+rm -rf $S
